@@ -1,13 +1,22 @@
 #!/usr/bin/env python3
 """Equivalence scan: machine-generated behaviour-preserving rewrites inside the anchored ranges.
 
-usage: eqscan.py [--file REL] [--per-function N] [--jobs 16] [--out FILE]
+usage: eqscan.py [--file REL] [--kinds rename,cmpflip,ifinvert,ternary,commute,augexpand] [--per-function N] [--jobs 16] [--out FILE]
 
-For every function that overlaps an anchored range of properties.jsonl, up to N local variables are renamed consistently
-(alpha-renaming: a name that is assigned in the function, is not a parameter, is not declared global / nonlocal and is not
-referenced by a nested function).  The rewrite cannot change behaviour; every check of the properties anchored there
-must stay silent (exit 0).  Exit 1 is a false alarm of the checker; exit 2 (cannot analyse) is reported separately as
-brittleness.  Like mutscan.py this is a measurement of the machinery, not a check of the repository.
+For every function that overlaps an anchored range of properties.jsonl the tool generates rewrites that cannot change
+behaviour and runs the quick checks of the properties anchored there on a scratch copy with ONE rewrite applied.  Every
+check must stay silent (exit 0).  Exit 1 is a false alarm of the checker; exit 2 (cannot analyse) is reported
+separately as brittleness.  Like mutscan.py this is a measurement of the machinery, not a check of the repository.
+
+kinds
+  rename     alpha-renaming of a local (assigned in the function, not a parameter, not global / nonlocal, not used by a
+             nested scope): every occurrence gets the suffix _r
+  cmpflip    `a == b` -> `b == a`, `a < b` -> `b > a`, ... (single comparisons with == != < <= > >=)
+  ifinvert   `if c: A else: B` -> `if not (c): B else: A` (statements with a plain else branch)
+  ternary    `x if c else y` -> `y if not (c) else x`
+  commute    `a * b` -> `b * a`, `a + b` -> `b + a`; only inside numba-jitted functions (numeric operands: IEEE
+             multiplication and addition commute exactly; the grouping of longer chains is kept)
+  augexpand  `t[i] += e` -> `t[i] = t[i] + (e)` (likewise -=, *=); subscript targets only, inside jitted functions
 """
 import argparse
 import ast
@@ -24,34 +33,100 @@ import mutscan  # noqa: E402
 
 VERIF = mutscan.VERIF
 REPO = mutscan.REPO
+KINDS = ("rename", "cmpflip", "ifinvert", "ternary", "commute", "augexpand")
+FLIP = {ast.Eq: "==", ast.NotEq: "!=", ast.Lt: ">", ast.LtE: ">=", ast.Gt: "<", ast.GtE: "<="}
+AUG = {ast.Add: "+", ast.Sub: "-", ast.Mult: "*"}
 
 
-def renames(rel, src, per_function):
+NEGOP = {ast.Eq: "!=", ast.NotEq: "==", ast.Is: "is not", ast.IsNot: "is", ast.In: "not in", ast.NotIn: "in", ast.Lt: ">=", ast.GtE: "<", ast.Gt: "<=", ast.LtE: ">"}
+
+
+def negated(test, seg):
+    """Source of the negation of `test`, the way a developer would spell it."""
+    if isinstance(test, ast.UnaryOp) and isinstance(test.op, ast.Not):
+        return seg(test.operand)
+    if isinstance(test, ast.Compare) and len(test.ops) == 1 and type(test.ops[0]) in NEGOP:
+        return "%s %s %s" % (seg(test.left), NEGOP[type(test.ops[0])], seg(test.comparators[0]))
+    if isinstance(test, (ast.Name, ast.Attribute, ast.Call, ast.Subscript)):
+        return "not " + seg(test)
+    return "not (" + seg(test) + ")"
+
+
+def _jitted(fn):
+    return any("jit" in ast.unparse(d) for d in fn.decorator_list)
+
+
+def rewrites(rel, src, per_function, kinds):
     tree = ast.parse(src)
     lines = src.splitlines(keepends=True)
     offs = [0]
     for ln in lines:
         offs.append(offs[-1] + len(ln.encode()))
+    bsrc = src.encode()
+
+    def pos(n):
+        return offs[n.lineno - 1] + n.col_offset, offs[n.end_lineno - 1] + n.end_col_offset
+
+    def seg(n):
+        a, b = pos(n)
+        return bsrc[a:b].decode()
+
     out = []
     all_names = {n.id for n in ast.walk(tree) if isinstance(n, ast.Name)} | {a.arg for f in ast.walk(tree) if isinstance(f, (ast.FunctionDef, ast.Lambda)) for a in f.args.args}
     for fn in ast.walk(tree):
         if not isinstance(fn, ast.FunctionDef):
             continue
         nested = [x for x in ast.walk(fn) if isinstance(x, (ast.FunctionDef, ast.Lambda, ast.ListComp, ast.DictComp, ast.SetComp, ast.GeneratorExp)) and x is not fn]
-        inner_nodes = {id(y) for x in nested for y in ast.walk(x)}
-        params = {a.arg for a in fn.args.posonlyargs + fn.args.args + fn.args.kwonlyargs} | ({fn.args.vararg.arg} if fn.args.vararg else set()) | ({fn.args.kwarg.arg} if fn.args.kwarg else set())
-        declared = {n for s in ast.walk(fn) if isinstance(s, (ast.Global, ast.Nonlocal)) for n in s.names}
-        stored = []
+        inner_nodes = {id(y) for x in nested if isinstance(x, ast.FunctionDef) for y in ast.walk(x)}
+        base = {"file": rel, "function": fn.name, "line": fn.lineno, "end": fn.end_lineno}
+        per_kind = {k: [] for k in KINDS}
+        if "rename" in kinds:
+            scope_nodes = {id(y) for x in nested for y in ast.walk(x)}
+            params = {a.arg for a in fn.args.posonlyargs + fn.args.args + fn.args.kwonlyargs} | ({fn.args.vararg.arg} if fn.args.vararg else set()) | ({fn.args.kwarg.arg} if fn.args.kwarg else set())
+            declared = {n for s in ast.walk(fn) if isinstance(s, (ast.Global, ast.Nonlocal)) for n in s.names}
+            stored = []
+            for n in ast.walk(fn):
+                if isinstance(n, ast.Name) and isinstance(n.ctx, ast.Store) and id(n) not in scope_nodes and n.id not in params and n.id not in declared and n.id not in stored:
+                    stored.append(n.id)
+            inner_used = {y.id for x in nested for y in ast.walk(x) if isinstance(y, ast.Name)}
+            for v in [v for v in stored if v not in inner_used and v + "_r" not in all_names and not v.startswith("_")]:
+                sites = [n for n in ast.walk(fn) if isinstance(n, ast.Name) and n.id == v and id(n) not in scope_nodes]
+                edits = sorted({pos(n) + (v + "_r",) for n in sites}, reverse=True)
+                per_kind["rename"].append(dict(base, kind="rename", what=v, edits=edits))
+        jit = _jitted(fn)
         for n in ast.walk(fn):
-            if isinstance(n, ast.Name) and isinstance(n.ctx, ast.Store) and id(n) not in inner_nodes and n.id not in params and n.id not in declared and n.id not in stored:
-                stored.append(n.id)
-        inner_used = {y.id for x in nested for y in ast.walk(x) if isinstance(y, ast.Name)}
-        cands = [v for v in stored if v not in inner_used and v + "_r" not in all_names and not v.startswith("_")]
-        step = max(1, len(cands) // per_function) if cands else 1
-        for v in cands[::step][:per_function]:
-            sites = [n for n in ast.walk(fn) if isinstance(n, ast.Name) and n.id == v and id(n) not in inner_nodes]
-            edits = sorted({(offs[n.lineno - 1] + n.col_offset, offs[n.end_lineno - 1] + n.end_col_offset) for n in sites}, reverse=True)
-            out.append({"file": rel, "function": fn.name, "line": fn.lineno, "end": fn.end_lineno, "name": v, "edits": edits})
+            if id(n) in inner_nodes:
+                continue
+            if "cmpflip" in kinds and isinstance(n, ast.Compare) and len(n.ops) == 1 and type(n.ops[0]) in FLIP:
+                new = "%s %s %s" % (seg(n.comparators[0]), FLIP[type(n.ops[0])], seg(n.left))
+                per_kind["cmpflip"].append(dict(base, kind="cmpflip", what="%d: %s" % (n.lineno, seg(n)[:50]), edits=[pos(n) + (new,)]))
+            if "ternary" in kinds and isinstance(n, ast.IfExp):
+                new = "%s if %s else %s" % (seg(n.orelse) if not isinstance(n.orelse, ast.IfExp) else "(" + seg(n.orelse) + ")", negated(n.test, seg), seg(n.body))
+                per_kind["ternary"].append(dict(base, kind="ternary", what="%d: %s" % (n.lineno, seg(n)[:50]), edits=[pos(n) + (new,)]))
+            if "ifinvert" in kinds and isinstance(n, ast.If) and n.orelse and not (len(n.orelse) == 1 and isinstance(n.orelse[0], ast.If) and n.orelse[0].col_offset == n.col_offset) \
+                    and n.body[0].lineno > n.test.end_lineno and n.orelse[0].col_offset == n.body[0].col_offset:
+                head = lines[n.lineno - 1]
+                if not head.lstrip().startswith("if "):
+                    continue  # an `elif`: the statement is part of a chain
+                ind = head[: len(head) - len(head.lstrip())]
+                nl = "\r\n" if head.endswith("\r\n") else "\n"
+                body = "".join(lines[n.body[0].lineno - 1: n.body[-1].end_lineno])
+                orelse = "".join(lines[n.orelse[0].lineno - 1: n.orelse[-1].end_lineno])
+                if not body.endswith(("\n", "\r\n")) or not orelse.endswith(("\n", "\r\n")):
+                    continue
+                new = ind + "if " + negated(n.test, seg) + ":" + nl + orelse + ind + "else:" + nl + body
+                a, b = offs[n.lineno - 1], offs[n.orelse[-1].end_lineno]
+                per_kind["ifinvert"].append(dict(base, kind="ifinvert", what="%d: if %s" % (n.lineno, seg(n.test)[:50]), edits=[(a, b, new)]))
+            if "commute" in kinds and jit and isinstance(n, ast.BinOp) and isinstance(n.op, (ast.Mult, ast.Add)) \
+                    and not any(isinstance(x, (ast.List, ast.Tuple, ast.JoinedStr)) or (isinstance(x, ast.Constant) and isinstance(x.value, str)) for x in (n.left, n.right)):
+                new = "(%s) %s (%s)" % (seg(n.right), "*" if isinstance(n.op, ast.Mult) else "+", seg(n.left))
+                per_kind["commute"].append(dict(base, kind="commute", what="%d: %s" % (n.lineno, seg(n)[:50]), edits=[pos(n) + (new,)]))
+            if "augexpand" in kinds and jit and isinstance(n, ast.AugAssign) and isinstance(n.target, ast.Subscript) and type(n.op) in AUG:
+                new = "%s = %s %s (%s)" % (seg(n.target), seg(n.target), AUG[type(n.op)], seg(n.value))
+                per_kind["augexpand"].append(dict(base, kind="augexpand", what="%d: %s" % (n.lineno, seg(n)[:50]), edits=[pos(n) + (new,)]))
+        for k, cands in per_kind.items():
+            step = max(1, len(cands) // per_function) if cands else 1
+            out.extend(cands[::step][:per_function])
     return out
 
 
@@ -62,19 +137,19 @@ def run_one(job):
         shutil.copytree(os.path.join(REPO, "bempp_cl"), os.path.join(scratch, "bempp_cl"), ignore=shutil.ignore_patterns("__pycache__", "*.npz", "*.npy", "*.msh"))
         p = os.path.join(scratch, m["file"])
         b = open(p, "rb").read()
-        for a, e in m["edits"]:
-            b = b[:a] + (m["name"] + "_r").encode() + b[e:]
+        for a, e, new in sorted(m["edits"], reverse=True):
+            b = b[:a] + new.encode() + b[e:]
         try:
             ast.parse(b.decode())
         except SyntaxError:
-            return dict(m, status="does-not-parse")
+            return dict(m, edits=len(m["edits"]), status="does-not-parse")
         open(p, "wb").write(b)
         env = dict(os.environ, VERIF_REPO=scratch, VERIF_OUT=os.path.join(scratch, "out"))
         res = {}
         for pr in props:
             r = subprocess.run(["/venv/bin/python", "-B", "-m", "sa.run", pr, "--tier", "quick"], cwd=VERIF, env=env, capture_output=True, text=True)
             last = [l for l in r.stdout.splitlines() if l.startswith(("VIOLATION", "ANALYSIS-ERROR", "  report:"))][:1]
-            res[pr] = {"exit": r.returncode, "line": last[0][:240] if last else ""}
+            res[pr] = {"exit": r.returncode, "line": last[0][:300] if last else ""}
         codes = [v["exit"] for v in res.values()]
         status = "false-alarm" if 1 in codes else ("cannot-analyse" if 2 in codes else "silent")
         return dict(m, edits=len(m["edits"]), status=status, results=res)
@@ -85,10 +160,12 @@ def run_one(job):
 def main():
     ap = argparse.ArgumentParser()
     ap.add_argument("--file", default="")
+    ap.add_argument("--kinds", default=",".join(KINDS))
     ap.add_argument("--per-function", type=int, default=1)
     ap.add_argument("--jobs", type=int, default=16)
     ap.add_argument("--out", default=os.path.join(VERIF, "selftest", "eqscan.json"))
     a = ap.parse_args()
+    kinds = set(a.kinds.split(","))
     ranges = mutscan.anchor_ranges()
     jobs = []
     for rel, rs in sorted(ranges.items()):
@@ -98,7 +175,7 @@ def main():
         if not rel.endswith(".py") or not os.path.exists(path):
             continue
         src = open(path, newline="").read()
-        for m in renames(rel, src, a.per_function):
+        for m in rewrites(rel, src, a.per_function, kinds):
             props = sorted({p for lo, hi, p in rs if lo <= m["end"] and m["line"] <= hi})
             if props:
                 jobs.append((m, props))
@@ -107,13 +184,14 @@ def main():
         results = list(ex.map(run_one, jobs, chunksize=1))
     tally = {}
     for r in results:
-        tally[r["status"]] = tally.get(r["status"], 0) + 1
+        key = "%s/%s" % (r["kind"], r["status"])
+        tally[key] = tally.get(key, 0) + 1
     json.dump({"tally": tally, "results": results}, open(a.out, "w"), indent=0)
     for r in results:
         if r["status"] != "silent":
             bad = [(p, v["exit"], v["line"]) for p, v in r.get("results", {}).items() if v["exit"]]
-            print("%-14s %s::%s rename `%s`  %s" % (r["status"].upper(), r["file"], r["function"], r["name"], bad[:2]))
-    print("TALLY", tally)
+            print("%-14s %-9s %s::%s `%s`  %s" % (r["status"].upper(), r["kind"], r["file"], r["function"], r["what"], bad[:2]))
+    print("TALLY", json.dumps(tally, sort_keys=True))
 
 
 if __name__ == "__main__":
